@@ -119,6 +119,9 @@ fn frame_history(r: &mut Rng, real: &mut Frame, model: &mut FrameModel, cx: &mut
                 let mut used_front = false;
                 let mut used_back = false;
                 for _ in 0..steps {
+                    // whatever bounds the iterator announces, the number of pairs it still yields lies within them
+                    let (lo, hi) = it.size_hint();
+                    cx.check(format!("fields().size_hint() = ({}, {:?}) brackets the {} remaining pairs", lo, hi, cur.len()), lo <= cur.len() && hi.map_or(true, |h| cur.len() <= h), true);
                     if r.chance(1, 2) {
                         used_front = true;
                         cx.check("fields().next()".into(), it.next().map(|(k, v)| (k.to_string(), v.to_string())), cur.next());
@@ -140,6 +143,8 @@ fn frame_history(r: &mut Rng, real: &mut Frame, model: &mut FrameModel, cx: &mut
                 let mut bin = model.binary.clone();
                 let steps = cur.len() + 2;
                 for _ in 0..steps {
+                    let (lo, hi) = it.size_hint();
+                    cx.check(format!("Frame::into_iter().size_hint() = ({}, {:?}) brackets the {} remaining pairs", lo, hi, cur.len()), lo <= cur.len() && hi.map_or(true, |h| cur.len() <= h), true);
                     match r.below(5) {
                         0 | 1 => cx.check("into_iter().next()".into(), it.next().map(|(k, v)| (k.to_string(), v)), cur.next()),
                         2 | 3 => cx.check("into_iter().next_back()".into(), it.next_back().map(|(k, v)| (k.to_string(), v)), cur.next_back()),
@@ -190,6 +195,12 @@ where
         cx.check(format!("{}.step_by({}).collect()", what, k + 1), mk().step_by(k + 1).map(f).collect::<Vec<_>>(), m().step_by(k + 1).collect::<Vec<_>>());
         cx.check(format!("{}.take({}).last()", what, k), mk().take(k).last().map(f), m().take(k).last());
         cx.check(format!("{}.rev().skip({}).collect()", what, k), mk().rev().skip(k).map(f).collect::<Vec<_>>(), m().rev().skip(k).collect::<Vec<_>>());
+    }
+    {
+        let (lo, hi) = mk().size_hint();
+        cx.check(format!("{}.size_hint() = ({}, {:?}) brackets the {} items", what, lo, hi, n), lo <= n && hi.map_or(true, |h| n <= h), true);
+        // collecting relies on the lower bound
+        cx.check(format!("{}.collect::<Vec<_>>().len()", what), mk().map(f).collect::<Vec<_>>().len(), n);
     }
     cx.check(format!("{}.count()", what), mk().count(), n);
     cx.check(format!("{}.last()", what), mk().last().map(f), m().last());
@@ -352,7 +363,7 @@ impl Property for C19 {
     fn meta(&self, _cfg: &Cfg, _acc: &Acc) -> Meta {
         Meta {
             level: "exploration",
-            rule: "responses with 0-6 frames (0-40 fields over 13 keys incl. duplicates and case variants, optional binary) +- error are produced by the real parser; random histories of 1-60 operations per frame (find/get over 17 probe keys, fields_len/is_empty/has_binary/binary/take_binary, borrowed iteration via fields() and &Frame with random next/next_back continued past exhaustion, clone + owned iteration with take_binary) and response iteration (frames(), &Response, owned; random next/next_back with size_hint/len after every step; is_error/is_success/successful_frames/into_single_frame; the provided iterator methods nth/nth_back/skip/step_by/take+last/count/last/rev/fold on all four iterator types, also overshooting the end) are compared step by step with a Vec/VecDeque model; non-trivial = history with >=1 removal followed by iteration from both ends; distinct by (response bytes, operation sequence)".into(),
+            rule: "responses with 0-6 frames (0-40 fields over 13 keys incl. duplicates and case variants, optional binary) +- error are produced by the real parser; random histories of 1-60 operations per frame (find/get over 17 probe keys, fields_len/is_empty/has_binary/binary/take_binary, borrowed iteration via fields() and &Frame with random next/next_back continued past exhaustion, clone + owned iteration with take_binary) and response iteration (frames(), &Response, owned; random next/next_back with size_hint/len after every step; is_error/is_success/successful_frames/into_single_frame; the provided iterator methods nth/nth_back/skip/step_by/take+last/count/last/rev/fold on all four iterator types, also overshooting the end; size_hint of every iterator must bracket what iteration yields at every step) are compared step by step with a Vec/VecDeque model; non-trivial = history with >=1 removal followed by iteration from both ends; distinct by (response bytes, operation sequence)".into(),
             nontrivial_set: "nontrivial",
             assumptions: vec!["frames bounded at 40 fields (recursion depth of the hole-skipping iterators on frames with very many removed fields is out of scope)".into()],
             exhaustive: None,
